@@ -145,7 +145,8 @@ Section Backing.
     NoDup (map fst pairs) /\
     (forall id p, In (id, p) pairs ->
        p_id p = id /\ NoDup (p_denoms p) /\ forall d, In d (p_denoms p) -> aget bytes_eqb [] denom d = id) /\
-    (forall d p, afind bytes_eqb pairs (aget bytes_eqb [] denom d) = Some p -> In d (p_denoms p)).
+    (forall d p, afind bytes_eqb pairs (aget bytes_eqb [] denom d) = Some p -> In d (p_denoms p)) /\
+    (forall p, ~ In ([], p) pairs).
   Definition WF s : Prop := WFreg (s_pairs s) (s_denom s).
 
   Definition Inv s : Prop := WF s /\ Backed s.
@@ -172,10 +173,92 @@ Section Backing.
     WF s -> get_pair s (get_denom_map s d) = Some p -> In (id, q) (s_pairs s) -> In d (p_denoms q) ->
     id = get_denom_map s d /\ q = p.
   Proof.
-    intros (ND & W2 & W3) G I D. destruct (W2 id q I) as (_ & _ & Hd). specialize (Hd d D).
+    intros (ND & W2 & W3 & _) G I D. destruct (W2 id q I) as (_ & _ & Hd). specialize (Hd d D).
     unfold get_denom_map. split; [symmetry; exact Hd|].
     pose proof (In_afind bytes_eqb bytes_eqb_eq _ _ _ ND I) as A. unfold get_pair, get_denom_map in G.
     rewrite Hd in G. congruence.
+  Qed.
+
+  Lemma aget_fold_adel_in (m : list (bytes * bytes)) ds d :
+    In d ds -> aget bytes_eqb [] (fold_left (fun m d => adel bytes_eqb m d) ds m) d = [].
+  Proof.
+    revert m. induction ds as [|d0 ds IH]; intros m I; [destruct I|]. cbn [fold_left].
+    destruct (in_dec bytes_eq_dec d ds) as [I'|NI]; [apply IH; exact I'|].
+    destruct I as [->|I]; [|contradiction].
+    clear IH. revert m. induction ds as [|d1 ds IH]; intro m; cbn [fold_left].
+    - apply (aget_adel_same bytes_eqb [] ).
+    - assert (d <> d1) by (intro; subst; apply NI; left; reflexivity).
+      assert (~ In d ds) by (intro; apply NI; right; assumption).
+      replace (adel bytes_eqb (adel bytes_eqb m d) d1) with (adel bytes_eqb (adel bytes_eqb m d1) d).
+      + apply IH; assumption.
+      + clear. induction m as [|[k v] m IHm]; cbn; [reflexivity|].
+        destruct (bytes_eqb k d1) eqn:E1, (bytes_eqb k d) eqn:E2; cbn; rewrite ?E1, ?E2, ?IHm; reflexivity.
+  Qed.
+
+  Lemma aget_fold_adel_notin (m : list (bytes * bytes)) ds d :
+    ~ In d ds -> aget bytes_eqb [] (fold_left (fun m d => adel bytes_eqb m d) ds m) d = aget bytes_eqb [] m d.
+  Proof.
+    revert m. induction ds as [|d0 ds IH]; intros m NI; [reflexivity|]. cbn [fold_left].
+    rewrite IH by (intro; apply NI; right; assumption).
+    apply (aget_adel_other bytes_eqb [] bytes_eqb_eq). intro; subst; apply NI; left; reflexivity.
+  Qed.
+
+  (** ** Clean-up of a self-destructed contract *)
+  Lemma wf_delete_pair s d p :
+    WF s -> get_pair s (get_denom_map s d) = Some p -> WF (delete_pair s p).
+  Proof.
+    intros W GP. pose proof W as (ND & W2 & W3 & W4).
+    pose proof (get_pair_In _ _ _ GP) as IP. destruct (W2 _ _ IP) as (PID & NDp & Hd).
+    set (id := get_denom_map s d) in *.
+    unfold WF, delete_pair. cbn [s_pairs s_denom set_registry]. rewrite PID. split; [|split; [|split]].
+    - apply (adel_NoDup bytes_eqb bytes_eqb_eq); exact ND.
+    - intros id' q H. apply (adel_In bytes_eqb bytes_eqb_eq) in H as [I NE].
+      destruct (W2 _ _ I) as (A1 & A2 & Hd'). split; [exact A1|]. split; [exact A2|].
+      intros d' D'. rewrite aget_fold_adel_notin; [apply Hd'; exact D'|].
+      intro D''. apply NE. rewrite <- (Hd' d' D'). apply Hd. exact D''.
+    - intros d' q A. destruct (in_dec bytes_eq_dec d' (p_denoms p)) as [D'|D'].
+      + rewrite aget_fold_adel_in in A by exact D'. apply (afind_In bytes_eqb bytes_eqb_eq) in A.
+        apply (adel_In bytes_eqb bytes_eqb_eq) in A as [I _]. exfalso. exact (W4 q I).
+      + rewrite aget_fold_adel_notin in A by exact D'. apply W3.
+        destruct (bytes_eq_dec id (aget bytes_eqb [] (s_denom s) d')) as [E|NE].
+        * rewrite <- E in A. rewrite (afind_adel_same bytes_eqb) in A. discriminate.
+        * rewrite (afind_adel_other bytes_eqb bytes_eqb_eq) in A by exact NE. exact A.
+    - intros q I. apply (adel_In bytes_eqb bytes_eqb_eq) in I as [I _]. exact (W4 q I).
+  Qed.
+
+  Lemma inv_delete_pair s d p :
+    Inv s -> get_pair s (get_denom_map s d) = Some p -> is_contract xcontract s (p_erc20 p) = false ->
+    Inv (delete_pair s p).
+  Proof.
+    intros [W B] GP C. split; [eapply wf_delete_pair; eassumption|].
+    pose proof W as (ND & W2 & W3 & W4).
+    pose proof (get_pair_In _ _ _ GP) as IP. destruct (W2 _ _ IP) as (PID & NDp & Hd).
+    set (id := get_denom_map s d) in *.
+    assert (UNIQ : forall q, In (id, q) (s_pairs s) -> q = p).
+    { intros q I. pose proof (In_afind bytes_eqb bytes_eqb_eq _ _ _ ND I) as A. unfold get_pair in GP. congruence. }
+    intros c t F. unfold delete_pair in F. cbn in F. specialize (B c t F).
+    unfold backing, delete_pair. cbn [s_pairs s_bank set_registry]. rewrite PID.
+    unfold escrow at 1. cbn [s_bank set_registry]. fold (escrow s).
+    rewrite backing_of_adel; [exact B|].
+    intros q I. rewrite (UNIQ q I). unfold pair_backing.
+    destruct (Z.eqb_spec (p_erc20 p) c) as [E|_]; [|rewrite andb_false_r; reflexivity].
+    exfalso. unfold is_contract in C. subst c. unfold find_mtok in F, C. rewrite F in C. discriminate.
+  Qed.
+
+  (** the escrow of [d] drops by [a]; [d] is listed by pair [p] owned by the module *)
+  Lemma backing_drop_case s d p (f g : bytes -> Z) a c :
+    WF s -> get_pair s (get_denom_map s d) = Some p ->
+    g d = f d - a -> 0 <= a -> (forall d', d' <> d -> g d' = f d') ->
+    backing_of f c (s_pairs s) - (if c =? p_erc20 p then a else 0) <= backing_of g c (s_pairs s).
+  Proof.
+    intros W GP G P O. pose proof W as (ND & W2 & W3 & W4).
+    destruct (Z.eqb_spec c (p_erc20 p)) as [->|NC].
+    - apply (backing_of_drop f g _ _ d (get_denom_map s d) a ND); try assumption.
+      intros id q I. destruct (W2 id q I) as (_ & NDq & Hd). split; [exact NDq|].
+      intro D. symmetry. apply Hd. exact D.
+    - rewrite (backing_of_other f g c (s_pairs s) d); [lia| |exact O].
+      intros id q I D. destruct (WF_unique s d p id q W GP I D) as [_ ->].
+      destruct (Z.eqb_spec (p_erc20 p) c) as [E|_]; [congruence | apply andb_false_r].
   Qed.
 
   (** ** Messages *)
@@ -207,23 +290,130 @@ Section Backing.
              ++ apply get_pair_In; exact GP.
              ++ exact O.
              ++ reflexivity.
-             ++ destruct W as (_ & _ & W3). apply W3. exact GP.
+             ++ destruct W as (_ & _ & W3 & _). apply W3. exact GP.
              ++ rewrite ESC, bytes_eqb_refl. reflexivity.
              ++ lia.
              ++ intro d. rewrite ESC. unfold ind. destruct (bytes_eqb d (cc_denom m)); lia.
           -- rewrite Z.add_0_r. apply backing_of_mono. intro d. rewrite ESC. unfold ind.
              destruct (bytes_eqb d (cc_denom m)); lia.
         * (* flow 2.2: the module's balance is unchanged, totalSupply of module contracts too *)
-          assert (dtotal (CTransfer (hex_to_addr (cc_receiver m)) (cc_amount m)) res = 0) as -> by (unfold dtotal; destruct (cr_ok res); reflexivity).
+          assert (dtotal (CTransfer (hex_to_addr (cc_receiver m)) (cc_amount m)) res = 0) as ->
+            by (unfold dtotal; destruct (cr_ok res); reflexivity).
           replace (if c =? p_erc20 p then 0 else 0) with 0 by (destruct (c =? p_erc20 p); reflexivity).
           rewrite Z.add_0_r. apply backing_of_mono. intro d. rewrite ESC. unfold ind. lia.
       + (* self-destructed contract: the pair is deleted *)
-        subst s'. destruct W as (ND & W2 & W3).
-        pose proof (get_pair_In _ _ _ GP) as IP. destruct (W2 _ _ IP) as (PID & NDp & Hd).
-        split.
-        * unfold WF, delete_pair. cbn [s_pairs s_denom set_registry]. rewrite PID.
-          admit.
-        * admit.
-    - admit.
-  Admitted.
+        subst s'. apply (inv_delete_pair s (cc_denom m)); [split; assumption | exact GP | exact C].
+    - (* MsgConvertERC20 *)
+      pose proof (convert_erc20_exact _ _ _ _ _ _ _ _ H PR) as E. cbv zeta in E.
+      destruct (is_contract xcontract s (p_erc20 p)) eqn:C.
+      + destruct E as (OW & P & BL & BS & SS & (G1 & G2 & G3 & G4 & G5 & G6 & G7 & G8) & A & res & TE & _).
+        split; [unfold WF; rewrite G3, G5; exact W|].
+        apply (backed_step s s' G3); [|exact B].
+        intros c t' F'. rewrite find_mtok_tokens in F'.
+        set (d0 := ce_denom m) in *. set (a := ce_amount m) in *. set (r := ce_receiver m) in *.
+        (* escrow: first the drop (flow 1.2 only), then a possible gain when the receiver is the module itself *)
+        set (g1 := fun d => escrow s d + ind ((p_owner p =? 1) && bytes_eqb d d0) (- a)).
+        assert (ESC : forall d, g1 d <= escrow s' d).
+        { intro d. unfold g1, escrow. rewrite BS. rewrite Z.eqb_refl. cbn [andb]. rewrite andb_true_r.
+          unfold ind. destruct ((MODULE =? r) && bytes_eqb d d0); destruct ((p_owner p =? 1) && bytes_eqb d d0); lia. }
+        destruct OW as [O|O]; rewrite O in *; cbn [Z.eqb Pos.eqb andb] in *.
+        * (* flow 1.2 *)
+          destruct (token_effect_totals _ _ _ _ _ _ _ _ _ _ _ TE c t' F') as (t & F & T).
+          exists t. eexists. split; [exact F|]. split; [exact T|].
+          assert (dtotal (CBurnCoins (hex_to_addr (ce_sender m)) a) res = - a) as ->.
+          { unfold dtotal. destruct TE as (_ & _ & _ & _ & _ & _ & OK & _). rewrite OK. reflexivity. }
+          apply Z.le_trans with (backing_of g1 c (s_pairs s)); [|apply backing_of_mono; exact ESC].
+          pose proof (backing_drop_case s d0 p (escrow s) g1 a c W GP) as DC.
+          replace (if c =? p_erc20 p then - a else 0) with (- (if c =? p_erc20 p then a else 0))
+            by (destruct (c =? p_erc20 p); ring).
+          unfold backing. apply Z.le_trans with (backing_of (escrow s) c (s_pairs s) - (if c =? p_erc20 p then a else 0)); [lia|].
+          apply DC.
+          -- unfold g1. rewrite O, bytes_eqb_refl. cbn [Z.eqb Pos.eqb andb]. unfold ind. ring.
+          -- lia.
+          -- intros d' ND'. unfold g1. apply bytes_eqb_neq in ND'. rewrite ND', andb_false_r. unfold ind. ring.
+        * (* flow 2.1 *)
+          destruct (token_effect_totals _ _ _ _ _ _ _ _ _ _ _ TE c t' F') as (t & F & T).
+          exists t. eexists. split; [exact F|]. split; [exact T|].
+          assert (dtotal (CTransfer MODULE a) res = 0) as -> by (unfold dtotal; destruct (cr_ok res); reflexivity).
+          replace (if c =? p_erc20 p then 0 else 0) with 0 by (destruct (c =? p_erc20 p); reflexivity).
+          rewrite Z.add_0_r. apply backing_of_mono. intro d. specialize (ESC d). unfold g1 in ESC. rewrite O in ESC.
+          cbn [Z.eqb Pos.eqb andb] in ESC. unfold ind in ESC. lia.
+      + subst s'. apply (inv_delete_pair s (ce_denom m)); [split; assumption | exact GP | exact C].
+  Qed.
+
+  (** ** What everybody else can do *)
+  Lemma inv_token_call s c caller cl s' k :
+    token_call xcall MODULE s c caller cl = (s', k) -> caller <> MODULE -> Inv s -> Inv s'.
+  Proof.
+    unfold token_call. destruct (evm_call xcall MODULE s c caller cl) as [s1 r] eqn:E.
+    destruct (cr_ok r) eqn:O; intros H NM [W B]; inversion H; subst; [|split; assumption].
+    apply evm_call_inv in E as [(_ & _ & _ & tk' & T & ->)|[-> _]]; [|cbn in O; discriminate].
+    split; [exact W|].
+    apply (backed_step s (set_tokens s tk') eq_refl); [|exact B].
+    intros c' t' F'. rewrite find_mtok_tokens, s_tokens_set in F'.
+    destruct (tok_exec_total_le _ _ _ _ _ _ _ _ _ T NM c' t' F') as (t & F & L).
+    exists t, (st_total t' - st_total t). split; [exact F|]. split; [ring|].
+    unfold backing. unfold escrow at 2. cbn [s_bank set_tokens]. fold (escrow s). lia.
+  Qed.
+
+  Lemma inv_bank_send s f t d a s' k :
+    bank_send s f t d a = (s', k) -> f <> MODULE -> Inv s -> Inv s'.
+  Proof.
+    unfold bank_send. destruct (zmem t (s_blocked s)); [intros H _ I; inversion H; subst; exact I|].
+    destruct (send_coins s f t d a) as [s1| |] eqn:S; intros H NM [W B]; inversion H; subst;
+      try (split; assumption).
+    apply send_coins_inv in S as (VD & P & L & ->).
+    destruct (sent_proj X s f t d a) as (_ & _ & Q3 & _ & Q5 & _ & _ & _ & _ & Q10 & _).
+    split; [unfold WF; rewrite Q3, Q5; exact W|].
+    apply (backed_step s _ Q3); [|exact B].
+    intros c t' F'. unfold find_mtok in F'. rewrite Q10 in F'.
+    exists t', 0. split; [exact F'|]. split; [ring|]. rewrite Z.add_0_r. apply backing_of_mono.
+    intro d'. unfold escrow. rewrite sent_bank. destruct (Z.eqb_spec MODULE f) as [E|_]; [congruence|].
+    cbn [andb]. unfold ind. destruct ((MODULE =? t) && bytes_eqb d' d); lia.
+  Qed.
+
+  Lemma wf_toggle s id : WF s -> WF (step s (OToggle id)).
+  Proof.
+    intros W. cbn [Convert.step]. destruct (get_pair s id) as [p0|] eqn:G; [|exact W].
+    pose proof W as (ND & W2 & W3 & W4).
+    unfold WF. cbn [s_pairs s_denom set_registry]. split; [|split; [|split]].
+    - rewrite aupd_keys. exact ND.
+    - intros id' q H. apply (aupd_In bytes_eqb bytes_eqb_eq) in H as (v & I & [->|[-> ->]]); apply (W2 _ _ I).
+    - intros d q A. destruct (bytes_eq_dec id (aget bytes_eqb [] (s_denom s) d)) as [E|NE].
+      + rewrite <- E, afind_aupd_same in A. destruct (afind bytes_eqb (s_pairs s) id) as [v|] eqn:AV; [|discriminate].
+        cbn in A. inversion A; subst q. cbn [p_denoms toggle_pair]. apply W3. rewrite <- E. exact AV.
+      + rewrite (afind_aupd_other bytes_eqb bytes_eqb_eq) in A by exact NE. apply W3. exact A.
+    - intros q I. apply (aupd_In bytes_eqb bytes_eqb_eq) in I as (v & I & [->|[E ->]]); [exact (W4 v I)|].
+      subst id. exact (W4 v I).
+  Qed.
+
+  Lemma inv_toggle s id : Inv s -> Inv (step s (OToggle id)).
+  Proof.
+    intros [W B]. split; [apply wf_toggle; exact W|].
+    cbn [Convert.step]. destruct (get_pair s id) as [p0|] eqn:G; [|exact B].
+    intros c t F. cbn in F. specialize (B c t F). unfold backing. cbn [s_pairs set_registry].
+    rewrite backing_of_toggle. exact B.
+  Qed.
+
+  (** ** The invariant over all histories *)
+  Theorem inv_step s o : not_module_signed MODULE o -> Inv s -> Inv (step s o).
+  Proof.
+    intros NS I. destruct o as [m|c caller cl|f t d a|id|p e sd sl].
+    - cbn [Convert.step]. destruct (deliver xcall xcontract MODULE s m) as [s' k] eqn:D. cbn [fst].
+      eapply inv_msg; eassumption.
+    - cbn [Convert.step]. destruct (token_call xcall MODULE s c caller cl) as [s' k] eqn:D. cbn [fst].
+      eapply inv_token_call; [exact D| |exact I]. intro; subst. apply NS. reflexivity.
+    - cbn [Convert.step]. destruct (bank_send s f t d a) as [s' k] eqn:D. cbn [fst].
+      eapply inv_bank_send; [exact D| |exact I]. intro; subst. apply NS. reflexivity.
+    - apply inv_toggle; exact I.
+    - destruct I as [W B]. split; [exact W|]. intros c t F. exact (B c t F).
+  Qed.
+
+  Theorem inv_run l : forall s, Forall (not_module_signed MODULE) l -> Inv s -> Inv (run s l).
+  Proof.
+    induction l as [|o l IH]; intros s F I; [exact I|]. cbn [Convert.run fold_left].
+    inversion F; subst. apply IH; [assumption|]. apply inv_step; assumption.
+  Qed.
 End Backing.
+
+Arguments escrow {X}. Arguments backing {X}. Arguments Backed {X}. Arguments WF {X}. Arguments Inv {X}.
